@@ -2,6 +2,7 @@
 //! (`<kind> <field> <field> ...`), prints one canonical result line per case.
 //! Everything observed is public API of /repo's crates; panics are caught and
 //! reported as `PANIC <message>`.
+mod k_conv;
 mod k_dev;
 mod k_errtab;
 mod k_lex;
@@ -23,6 +24,7 @@ fn dispatch(kind: &str, args: &[&str]) -> String {
         "devtree" => k_dev::dump_tree(),
         "mm" => k_mm::run(args),
         "lex" => k_lex::run(args),
+        "conv" => k_conv::run(args),
         "tree" => k_tree::run(args),
         _ => format!("UNKNOWN-KIND {}", kind),
     }
